@@ -27,6 +27,7 @@ import shutil
 import subprocess
 import sys
 
+from mc.engine import implstate
 from mc.engine.harness import Partial, Report, merge_all, VERIF
 from mc.engine.pool import run_shards, split
 from mc.ref import codec, message, tables
@@ -246,8 +247,8 @@ class World(object):
         import pybufrkit.tables as pt
         from pybufrkit.decoder import Decoder
         from pybufrkit.encoder import Encoder
-        pt.MAXIMUM_NUMBER_OF_CACHED_TABLE_GROUPS = limit
-        pt.TableGroupCacheManager._TABLE_GROUP_CACHE = pt.TableGroupCache()
+        implstate.set_table_cache_limit(limit)
+        implstate.reset_table_cache()
         self.dec = Decoder(tables_root_dir=root, compiled_template_cache_max=ccache)
         self.enc = Encoder(tables_root_dir=root, compiled_template_cache_max=ccache)
         self.plain = None
@@ -434,8 +435,8 @@ def run_real_limit(args):
         probes.append((v, message.build(message.Spec(meta={'master_table_version': v}, descs=[1001, X, 12001]), buf)[0],
                        repr([(s.labels, s.values) for s in subs])))
     for rot in rotations:
-        pt.MAXIMUM_NUMBER_OF_CACHED_TABLE_GROUPS = 50
-        pt.TableGroupCacheManager._TABLE_GROUP_CACHE = pt.TableGroupCache()
+        implstate.set_table_cache_limit(50)
+        implstate.reset_table_cache()
         order = keys[rot:] + keys[:rot]
         p.n['nodes'] += 1
         for root, v in order:
@@ -447,7 +448,9 @@ def run_real_limit(args):
             except Exception as e:
                 p.violation('real-limit|load-raises:' + type(e).__name__, {'rotation': rot}, repr(e))
                 break
-        ngroups = len(pt.TableGroupCacheManager._TABLE_GROUP_CACHE._groups)
+        ngroups = implstate.cached_group_count()
+        if ngroups is None:
+            ngroups = 0
         d = Decoder()
         for v, b, want in probes:
             p.n['exec'] += 1
